@@ -27,9 +27,9 @@ type PropDef struct {
 	Level       string // exploration | fault_enumeration | model_checking
 	Rule        string
 	Assumptions []string
-	Workers     int                   // 0 = nproc
-	Run         func(c *Ctx)          // executed in every worker (sharded)
-	Post        func(c *Ctx, m *Part) // optional, executed in the driver after merging
+	Workers     int                                 // 0 = nproc
+	Run         func(c *Ctx)                        // executed in every worker (sharded)
+	Post        func(c *Ctx, m *Part)               // optional, executed in the driver after merging
 	Replay      func(c *Ctx, r map[string]any) bool // re-runs one recorded case; true = violation reproduced
 }
 
@@ -46,20 +46,20 @@ type Viol struct {
 }
 
 type Part struct {
-	Evaluations int64            `json:"evaluations"`
-	Distinct    int64            `json:"distinct"`
-	Counters    map[string]int64 `json:"counters"`
-	Outcomes    map[string]int64 `json:"outcomes"`
-	Samples     []any            `json:"samples"`
-	Viols       map[string]*Viol `json:"viols"`
-	Notes       []string         `json:"notes"`
-	Caps        []string         `json:"caps"`
-	States      int64            `json:"states"`
-	Transitions int64            `json:"transitions"`
-	Traces      int64            `json:"traces"`
-	Flaky       []string         `json:"flaky"`
+	Evaluations int64               `json:"evaluations"`
+	Distinct    int64               `json:"distinct"`
+	Counters    map[string]int64    `json:"counters"`
+	Outcomes    map[string]int64    `json:"outcomes"`
+	Samples     []any               `json:"samples"`
+	Viols       map[string]*Viol    `json:"viols"`
+	Notes       []string            `json:"notes"`
+	Caps        []string            `json:"caps"`
+	States      int64               `json:"states"`
+	Transitions int64               `json:"transitions"`
+	Traces      int64               `json:"traces"`
+	Flaky       []string            `json:"flaky"`
 	Facts       map[string][]string `json:"facts"` // values reported by workers under a key; the driver compares them
-	HarnessErr  []string         `json:"harness_err"`
+	HarnessErr  []string            `json:"harness_err"`
 }
 
 func newPart() *Part {
@@ -111,7 +111,7 @@ func (c *Ctx) Fact(key, val string) {
 	c.P.Facts[key] = append(c.P.Facts[key], val)
 }
 
-func (c *Ctx) Eval(n int64)                { c.P.Evaluations += n }
+func (c *Ctx) Eval(n int64) { c.P.Evaluations += n }
 func (c *Ctx) Count(name string, n int64) {
 	if strings.HasPrefix(name, "max:") {
 		if n > c.P.Counters[name] {
@@ -529,18 +529,23 @@ func finish(c *Ctx, def *PropDef, m *Part, wall time.Duration) int {
 	}
 	// evidence
 	cov := map[string]any{
-		"evaluations":         m.Evaluations,
-		"distinct_nontrivial": m.Distinct,
-		"rule":                def.Rule,
-		"samples":             m.Samples,
-		"exhaustive":          len(m.Caps) == 0,
-		"counters":            m.Counters,
-		"distinct_outcomes":   len(m.Outcomes),
-		"caps_hit":            m.Caps,
-		"notes":               m.Notes,
+		"evaluations":          m.Evaluations,
+		"distinct_nontrivial":  m.Distinct,
+		"rule":                 def.Rule,
+		"samples":              m.Samples,
+		"exhaustive":           len(m.Caps) == 0,
+		"counters":             m.Counters,
+		"distinct_outcomes":    len(m.Outcomes),
+		"caps_hit":             m.Caps,
+		"notes":                m.Notes,
 		"violation_signatures": vlist,
-		"known_findings_seen": knownSeen,
-		"workers":             func() int { if def.Workers > 0 { return def.Workers }; return nproc() }(),
+		"known_findings_seen":  knownSeen,
+		"workers": func() int {
+			if def.Workers > 0 {
+				return def.Workers
+			}
+			return nproc()
+		}(),
 	}
 	if len(m.Outcomes) <= 40 {
 		cov["outcomes"] = m.Outcomes
